@@ -327,7 +327,7 @@ class Engine:
     # ---------------- coercions ----------------
     def to_real(self, v):
         import numpy as _np
-        if isinstance(v, _np.generic):
+        if isinstance(v, _np.generic) or (isinstance(v, _np.ndarray) and v.size == 1):
             v = v.item()
         if isinstance(v, bool):
             return z3.RealVal(1 if v else 0)
